@@ -20,6 +20,8 @@ EXTENDS Integers, Sequences, FiniteSets, TLC
 
 CONSTANTS Nodes, Root, MoveIds, Moves, Child, Static, Status, Key, History,
           Workers, MaxIter, MinPar, Orders, K, LoopChecksFlag, AssertLine, StopAllowed,
+          SlotOf,    \* SlotOf[k]: the table slot a key is stored in (non-injective = a bounded table with displacement)
+          TagCheck,  \* TRUE: a lookup compares the full key stored in the slot; FALSE: the deliberately broken lookup (C15 guard)
           CapOrder   \* CapOrder[n]: the capturing moves of n in the order the quiescence search tries them (<<>> = quiet)
 \* Moves[n] \subseteq MoveIds ; Child[n][m] \in Nodes ; Static[n] \in Int (side to move's view)
 \* Status[n] \in {"open","mate","stale"} ; Key[n] : table key ; Orders[n] : set of sequences (move orders)
@@ -42,7 +44,10 @@ VARIABLES tt,        \* [Keys -> entry | NoEntry]
 vars == <<tt, iter, stk, res, reports, phase, cancel, cnt, post, panicked>>
 
 Keys == {Key[n] : n \in Nodes}
+Slots == { SlotOf[k] : k \in Keys }
 NoEntry == [kind |-> "none"]
+\* what a lookup by key k returns: the slot's entry if it was stored under k (or whatever is there, when TagCheck is off)
+Lookup(t, k) == LET e == t[SlotOf[k]] IN IF e.kind # "none" /\ (~TagCheck \/ e.key = k) THEN e ELSE NoEntry
 
 Max(a, b) == IF a >= b THEN a ELSE b
 Min(a, b) == IF a <= b THEN a ELSE b
@@ -96,7 +101,7 @@ Advance(s) ==
 \* ---- one shared read: probe (plus history test, quiescence, move generation) ----
 Probe(w) ==
   /\ phase = "search" /\ res[w] = <<"run">> /\ stk[w] # <<>> /\ Top(stk[w]).ph = "enter"
-  /\ LET s == stk[w] f == Top(s) k == Key[f.n] e == tt[k] IN
+  /\ LET s == stk[w] f == Top(s) k == Key[f.n] e == Lookup(tt, k) IN
      \E ord \in Orders[f.n] :
        LET hit == e.kind # "none" /\ (e.mx - e.cur) >= (f.mx - f.cur)
            a1 == IF hit /\ e.kind = "L" THEN Max(f.a, e.eval) ELSE f.a
@@ -119,9 +124,9 @@ Store(w) ==
   /\ LET s == stk[w] f == Top(s) k == Key[f.n]
          cut == f.ph = "storeCut"
          ent == [kind |-> IF cut THEN "L" ELSE f.kind, mv |-> IF cut THEN f.cm ELSE f.best,
-                 cur |-> f.cur, mx |-> f.mx, eval |-> IF cut THEN f.b ELSE f.a]
+                 cur |-> f.cur, mx |-> f.mx, eval |-> IF cut THEN f.b ELSE f.a, key |-> k]
          r == Deliver(Pop(s), IF cut THEN f.b ELSE f.a)
-     IN /\ tt' = [tt EXCEPT ![k] = ent]
+     IN /\ tt' = [tt EXCEPT ![SlotOf[k]] = ent]
         /\ stk' = [stk EXCEPT ![w] = r.s]
         /\ res' = [res EXCEPT ![w] = r.out]
   /\ UNCHANGED <<iter, reports, phase, cancel, cnt, post, panicked>>
@@ -143,7 +148,7 @@ StartIteration ==
 RECURSIVE Line(_, _, _)
 Line(t, n, left) ==
   IF left = 0 \/ n = Bogus THEN <<>>
-  ELSE LET e == t[Key[n]] IN
+  ELSE LET e == Lookup(t, Key[n]) IN
        IF e.kind = "none" THEN <<>>
        ELSE LET nx == IF e.mv \in Moves[n] THEN Child[n][e.mv] ELSE Bogus
             IN <<[at |-> n, mv |-> e.mv]>> \o Line(t, nx, left - 1)
@@ -154,7 +159,7 @@ BestSoFar == IF reports = <<>> THEN 0 - 1000 ELSE reports[Len(reports)].eval
 \* an interrupted iteration: report the root entry if it improves on the last completed iteration
 JoinInterrupted ==
   /\ phase = "search" /\ \A w \in Active : res[w][1] \in {"ok", "int"} /\ \E u \in Active : res[u][1] = "int"
-  /\ LET e == tt[Key[Root]] line == Line(tt, Root, iter + 1) IN
+  /\ LET e == Lookup(tt, Key[Root]) line == Line(tt, Root, iter + 1) IN
        IF e.kind # "none" /\ e.eval > BestSoFar
        THEN /\ reports' = Append(reports, [eval |-> e.eval, line |-> line])
             /\ panicked' = (panicked \/ line = <<>>)
@@ -175,7 +180,7 @@ JoinIteration ==
                 ELSE phase' = "start" /\ iter' = iter + 1
   /\ UNCHANGED <<tt, stk, res, cancel, cnt, post>>
 
-Init == /\ tt = [k \in Keys |-> NoEntry] /\ iter = 0
+Init == /\ tt = [sl \in Slots |-> NoEntry] /\ iter = 0
         /\ stk = [w \in 0..(Workers - 1) |-> <<>>] /\ res = [w \in 0..(Workers - 1) |-> <<"idle">>]
         /\ reports = <<>> /\ phase = "start"
         /\ cancel = FALSE /\ cnt = [w \in 0..(Workers - 1) |-> 0] /\ post = [w \in 0..(Workers - 1) |-> 0] /\ panicked = FALSE
